@@ -95,3 +95,32 @@ def rerun(path):
     print(json.dumps(j, indent=1)[:4000])
     print("REPRODUCED" if v else "not reproduced on the current tree")
     return 1 if v else 0
+
+def witness_sweep(prop, units, registry):
+    """run every witness registered for a label of `prop`; return a replay path for the first failing one"""
+    labs = [lab for u in units for lab, d in u.labels.items() if prop in d["props"]]
+    seen, todo = set(), []
+    for pref, ws in registry.WITNESSES.items():
+        if any(l == pref or l.startswith(pref) for l in labs):
+            for w in ws:
+                key = json.dumps(w, sort_keys=True)
+                if key not in seen:
+                    seen.add(key); todo.append((pref, w))
+    if not todo:
+        return None
+    ok, err = build()
+    if not ok:
+        return None
+    for pref, w in todo:
+        try:
+            v, j = run_witness(w)
+        except Exception:
+            continue
+        if v:
+            outdir = os.path.join(ROOT, "replays"); os.makedirs(outdir, exist_ok=True)
+            path = os.path.join(outdir, f"{prop}-witness-{hashlib.sha256(json.dumps(w, sort_keys=True).encode()).hexdigest()[:10]}.json")
+            json.dump(dict(property=prop, obligation=pref + " (verifier undecided on this tree; witness program failed on the real library)", found_input=True,
+                           failing_input=dict(src=w["src"], opts=w.get("opts"), range=w.get("range"), oracle=w.get("oracle", "tree"), contains=w.get("contains"), result=j)),
+                      open(path, "w"), indent=1)
+            return path
+    return None
